@@ -655,8 +655,149 @@ let handle_history line toks =
     pfail line clause (Printf.sprintf "call#%d:%s (got %s)" idx want got)
   end
 
+
+(* ---------------------------------------------------------------- connection glue (Glue.v) *)
+let label_of_code = function
+  | "0" -> LRead | "1" -> LWrite | "2" -> LSetDeadline | "3" -> LSetReadDeadline | "4" -> LSetWriteDeadline
+  | "5" -> LClose | s -> failwith ("bad label " ^ s)
+
+let code_of_label = function
+  | LRead -> "0" | LWrite -> "1" | LSetDeadline -> "2" | LSetReadDeadline -> "3" | LSetWriteDeadline -> "4" | LClose -> "5"
+
+let gerr_of_str (s : string) : gerr =
+  let rec go = function
+    | [] -> failwith ("bad error " ^ s)
+    | [ "n" ] -> GNil
+    | [ t ] when t.[0] = 'l' -> GLeaf (z_of_hex (tail_from t 1))
+    | w :: tl ->
+        let wr =
+          match w.[0] with
+          | 'P' -> WPath
+          | 'S' -> WSyscall
+          | 'F' -> WFmt
+          | 'O' ->
+              let l, n = split_first '-' (tail_from w 1) in
+              WOp (label_of_code l, z_of_hex n)
+          | _ -> failwith ("bad wrapper " ^ w)
+        in
+        GWrap (wr, go tl)
+  in
+  go (String.split_on_char '.' s)
+
+let rec str_of_gerr (e : gerr) : string =
+  match e with
+  | GNil -> "n"
+  | GLeaf c -> "l" ^ hex_of_z c
+  | GWrap (w, inner) ->
+      (match w with
+       | WPath -> "P"
+       | WSyscall -> "S"
+       | WFmt -> "F"
+       | WOp (l, n) -> "O" ^ code_of_label l ^ "-" ^ hex_of_z n)
+      ^ "." ^ str_of_gerr inner
+
+let hex_or d = if d = [] then "-" else hex_of_data d
+let data_or s = if s = "-" then [] else data_of_hex s
+
+let gop_of_str (t : string) : gop =
+  let arg = tail_from t 1 in
+  match t.[0] with
+  | 'R' -> OpRead (z_of_hex arg)
+  | 'W' -> OpWrite (data_or arg)
+  | 'D' -> OpSetDeadline (z_of_hex arg)
+  | 'E' -> OpSetReadDeadline (z_of_hex arg)
+  | 'F' -> OpSetWriteDeadline (z_of_hex arg)
+  | 'C' -> OpClose
+  | _ -> failwith ("bad op " ^ t)
+
+let str_of_ucall = function
+  | CRead n -> "R" ^ hex_of_z n
+  | CWrite bs -> "W" ^ hex_or bs
+  | CSetDeadline t -> "D" ^ hex_of_z t
+  | CSetReadDeadline t -> "E" ^ hex_of_z t
+  | CSetWriteDeadline t -> "F" ^ hex_of_z t
+  | CClose -> "C"
+
+let answer_of_str (t : string) : answer =
+  match String.split_on_char ':' t with
+  | [ n; d; e ] -> { an = z_of_hex n; adata = data_or d; aerr = gerr_of_str e }
+  | _ -> failwith ("bad answer " ^ t)
+
+let obs_str (calls : string list) (r : gresult) =
+  Printf.sprintf "%s=%s:%s:%s" (if calls = [] then "-" else String.concat "," calls) (hex_of_z r.rn) (hex_or r.rdata)
+    (str_of_gerr r.rerr)
+
+let rec split_bars acc cur = function
+  | [] -> List.rev (List.rev cur :: acc)
+  | "|" :: tl -> split_bars (List.rev cur :: acc) [] tl
+  | t :: tl -> split_bars acc (t :: cur) tl
+
+let has_fault (answers : answer list) = List.exists (fun a -> a.aerr <> GNil) answers
+
+let compare_obs line clause (expected : string list) (obs : string list) =
+  if expected <> obs then begin
+    let rec first i a b =
+      match (a, b) with
+      | x :: ta, y :: tb -> if x = y then first (i + 1) ta tb else (i, x, y)
+      | x :: _, [] -> (i, x, "(missing)")
+      | [], y :: _ -> (i, "(nothing)", y)
+      | [], [] -> (i, "", "")
+    in
+    let i, want, got = first 0 expected obs in
+    pfail (clip_long line) clause (Printf.sprintf "op#%d:%s (got %s)" i want got)
+  end
+
+let handle_fileconn line toks =
+  match split_bars [] [] toks with
+  | [ net :: ops_t; ans_t; obs ] ->
+      let ops = lmap gop_of_str ops_t and script = lmap answer_of_str ans_t in
+      let outs = fileconn_run (z_of_hex net) ops script in
+      let expected = lmap (fun (calls, r) -> obs_str (lmap str_of_ucall calls) r) outs in
+      note_case (if has_fault script then "FC-fault" else "FC") (clip_long line);
+      compare_obs line "glue-fileconn-forwards-and-wraps" expected obs
+  | _ -> failwith ("bad FC line: " ^ clip line)
+
+let handle_udp line kind toks =
+  match split_bars [] [] toks with
+  | [ ops_t; rx_t; tx_t; obs ] ->
+      let ops = lmap gop_of_str ops_t in
+      let srx = lmap answer_of_str rx_t and stx = lmap answer_of_str tx_t in
+      let outs = udp_run ops srx stx in
+      let side_call (s, c) = (match s with Rx -> "r/" | Tx -> "t/") ^ str_of_ucall c in
+      let expected = lmap (fun (calls, r) -> obs_str (lmap side_call calls) r) outs in
+      note_case ("UD-" ^ kind ^ if has_fault (srx @ stx) then "-fault" else "") (clip_long line);
+      compare_obs line "glue-udptxrx-forwards" expected obs
+  | _ -> failwith ("bad UD line: " ^ clip line)
+
+let handle_dial line scen ck connk perr rest =
+  let p = { pconn = connk <> "0"; perr = (if perr = "1" then GLeaf (z_of_int 5) else GNil) } in
+  let schedules =
+    match scen with
+    | "1" -> [ [ EProvider; ESelect false; ECtxDone ] ]
+    | "2" | "4" -> [ [ ECtxDone; ESelect true; EProvider; ECleanup ] ]
+    | "3" -> [ [ ECtxDone; EProvider; ESelect true; ECleanup ]; [ ECtxDone; EProvider; ESelect false; ECleanup ] ]
+    | _ -> failwith ("bad scenario " ^ scen)
+  in
+  let show es =
+    let s = dial_run p dial0 es in
+    let rc, re =
+      match s.d_ret with
+      | DWaiting -> ("?", "waiting")
+      | DResult (c, e) -> (b01 c, if e = GNil then "-" else "p")
+      | DCtxErr -> ("0", ck)
+    in
+    Printf.sprintf "%s %s %s" rc re (hex_of_z s.d_closes)
+  in
+  let expected = lmap show schedules in
+  let got = String.concat " " rest in
+  note_case (Printf.sprintf "DC-scenario%s-conn%s" scen connk) line;
+  if not (List.mem got expected) then pfail line "glue-dialctx-returns-or-closes-once" (String.concat " or " expected)
+
 let handle line =
   match split_ws line with
+  | "FC" :: toks -> handle_fileconn line toks
+  | "UD" :: kind :: toks -> handle_udp line kind toks
+  | "DC" :: scen :: ck :: connk :: perr :: "|" :: rest -> handle_dial line scen ck connk perr rest
   | "C" :: toks -> handle_concurrent line toks
   | [ "V"; fr; ok ] -> handle_validate line fr ok
   | "T" :: fr :: "|" :: nw :: hx :: err :: "|" :: rx -> handle_transmit line fr nw hx err rx
